@@ -199,6 +199,31 @@ def write_segy_sgz(sgy, path, bpv=4, blockshape=None, reduce_iops=False, header_
 
 
 # ------------------------------------------------------------------ instrumented file objects
+class CountingBlob:
+    """stand-in for an azure BlobClient (download_blob(offset=, length=).readall()) recording every (offset, length) request;
+    requests arrive from worker threads, so the log is kept under a lock and compared as a sorted list"""
+    def __init__(self, path):
+        self.blob_name = path
+        self._data = open(path, 'rb').read()
+        self._lock = _threading.Lock()
+        self.log = []
+        self.all = []
+
+    def download_blob(self, offset=None, length=None):
+        blob = self
+
+        class _D:
+            def readall(self_):
+                with blob._lock:
+                    blob.log.append((offset, length))
+                    blob.all.append((offset, length))
+                return blob._data[offset:offset + length]
+        return _D()
+
+    def close(self):
+        pass
+
+
 class CountingFile:
     """file-like object recording every (offset, length) read; optional fault script and truncation"""
     def __init__(self, path, faults=None, limit=None):
